@@ -11,11 +11,11 @@ package discovery
 // (each operation runs inside one critical section of targetsLock; interleavings with readers are then serial
 // orders of these operations - mutual exclusion itself is assumed, not verified)
 
-pred wfTargets(l, jn) = forall t in l :: t != nil && t.ShardTarget != nil && t.Job == jn
+pred wfSDTargets(l, jn) = forall t in l :: t != nil && t.ShardTarget != nil && t.Job == jn
 pred wfDiscovery(m) = m != nil && m.activeTargets != nil && m.dropTargets != nil && m.activeTargets != m.dropTargets
     && (forall jn, c in m.config :: c != nil && c.JobName == jn)
-    && (forall jn, l in m.activeTargets :: jn in m.config && jn in m.dropTargets && wfTargets(l, jn))
-    && (forall jn, l in m.dropTargets :: jn in m.config && wfTargets(l, jn))
+    && (forall jn, l in m.activeTargets :: jn in m.config && jn in m.dropTargets && wfSDTargets(l, jn))
+    && (forall jn, l in m.dropTargets :: jn in m.config && wfSDTargets(l, jn))
 
 // a reload keeps, for every job of the new configuration that had targets, the very same slices, and drops all others at once
 contract TargetsDiscovery.ApplyConfig
@@ -149,26 +149,26 @@ contract TargetsDiscovery.translateTargets
   loop 1 invariant actives != nil && drops != nil && fresh(actives) && fresh(drops) && actives != drops
   loop 1 invariant forall jn in visited1 :: (jn in m.config ==> (jn in actives && jn in drops))
   loop 1 invariant samemap(m.activeTargets) && samemap(m.dropTargets)
-  loop 1 invariant forall jn, l in actives :: jn in targets && jn in m.config && fresh(l) && wfTargets(l, jn)
-  loop 1 invariant forall jn, l in drops :: jn in targets && jn in m.config && fresh(l) && wfTargets(l, jn)
-  loop 2 invariant fresh(allActive) && fresh(allDrop) && wfTargets(allActive, job) && wfTargets(allDrop, job) && cfg != nil && cfg == m.config[job] && job in m.config
-  loop 3 invariant fresh(allActive) && fresh(allDrop) && wfTargets(allActive, job) && wfTargets(allDrop, job) && cfg != nil && cfg == m.config[job] && job in m.config
-  loop 2 invariant forall jn, l in actives :: fresh(l) && wfTargets(l, jn)
-  loop 2 invariant forall jn, l in drops :: fresh(l) && wfTargets(l, jn)
-  loop 3 invariant forall jn, l in actives :: fresh(l) && wfTargets(l, jn)
-  loop 3 invariant forall jn, l in drops :: fresh(l) && wfTargets(l, jn)
+  loop 1 invariant forall jn, l in actives :: jn in targets && jn in m.config && fresh(l) && wfSDTargets(l, jn)
+  loop 1 invariant forall jn, l in drops :: jn in targets && jn in m.config && fresh(l) && wfSDTargets(l, jn)
+  loop 2 invariant fresh(allActive) && fresh(allDrop) && wfSDTargets(allActive, job) && wfSDTargets(allDrop, job) && cfg != nil && cfg == m.config[job] && job in m.config
+  loop 3 invariant fresh(allActive) && fresh(allDrop) && wfSDTargets(allActive, job) && wfSDTargets(allDrop, job) && cfg != nil && cfg == m.config[job] && job in m.config
+  loop 2 invariant forall jn, l in actives :: fresh(l) && wfSDTargets(l, jn)
+  loop 2 invariant forall jn, l in drops :: fresh(l) && wfSDTargets(l, jn)
+  loop 3 invariant forall jn, l in actives :: fresh(l) && wfSDTargets(l, jn)
+  loop 3 invariant forall jn, l in drops :: fresh(l) && wfSDTargets(l, jn)
   loop 3 invariant forall t in ts :: t != nil && t.ShardTarget != nil && t.PromTarget != nil && t.Job == cfg.JobName
   loop 4 invariant actives != nil && drops != nil && fresh(actives) && fresh(drops) && actives != drops
-  loop 4 invariant forall jn, l in actives :: jn in targets0 && jn in m.config && fresh(l) && wfTargets(l, jn)
-  loop 4 invariant forall jn, l in drops :: jn in targets0 && jn in m.config && fresh(l) && wfTargets(l, jn)
+  loop 4 invariant forall jn, l in actives :: jn in targets0 && jn in m.config && fresh(l) && wfSDTargets(l, jn)
+  loop 4 invariant forall jn, l in drops :: jn in targets0 && jn in m.config && fresh(l) && wfSDTargets(l, jn)
   loop 4 invariant forall jn in targets0 :: (jn in m.config ==> (jn in actives && jn in drops))
   loop 4 invariant forall jn in visited4 :: (jn in actives && jn in m.activeTargets && m.activeTargets[jn] == actives[jn])
   loop 4 invariant forall jn in m.activeTargets :: (jn in visited4 || (jn in old(keys(m.activeTargets)) && m.activeTargets[jn] == old(m.activeTargets[jn])))
   loop 4 invariant forall jn in old(keys(m.activeTargets)) :: jn in m.activeTargets
   loop 4 invariant samemap(m.dropTargets)
   loop 5 invariant actives != nil && drops != nil && fresh(actives) && fresh(drops) && actives != drops
-  loop 5 invariant forall jn, l in actives :: jn in targets0 && jn in m.config && fresh(l) && wfTargets(l, jn)
-  loop 5 invariant forall jn, l in drops :: jn in targets0 && jn in m.config && fresh(l) && wfTargets(l, jn)
+  loop 5 invariant forall jn, l in actives :: jn in targets0 && jn in m.config && fresh(l) && wfSDTargets(l, jn)
+  loop 5 invariant forall jn, l in drops :: jn in targets0 && jn in m.config && fresh(l) && wfSDTargets(l, jn)
   loop 5 invariant forall jn in targets0 :: (jn in m.config ==> (jn in actives && jn in drops))
   loop 5 invariant forall jn in actives :: (jn in m.activeTargets && m.activeTargets[jn] == actives[jn])
   loop 5 invariant forall jn in m.activeTargets :: (jn in actives || (jn in old(keys(m.activeTargets)) && m.activeTargets[jn] == old(m.activeTargets[jn])))
